@@ -250,6 +250,12 @@ pub fn run_case(c: &BkCase, stats: &mut Stats) -> Result<(), (String, String)> {
             let mut v2 = ix.clone();
             v2.accounts.splice(pos..(pos + glen).min(v2.accounts.len()), w.risk_metas_for_bank(&w.banks[db].key));
             variants.push(v2);
+            // the collateral bank itself, but with another bank's (authentic) oracle account in its oracle slot
+            if glen >= 2 && w.banks[db].oracle_kind != 0 {
+                let mut v4 = ix.clone();
+                v4.accounts[pos + 1] = solana_program::instruction::AccountMeta::new_readonly(w.banks[db].oracle_key, false);
+                variants.push(v4);
+            }
         }
         let n_obs = w.risk_metas(&victim.accts[0], None, None).len();
         if n_obs > 0 && ix.accounts.len() > n_obs {
